@@ -31,6 +31,10 @@ fn gen_of(x: &XRef) -> u64 {
 fn lookup(t: &XRefTable, id: u64) -> XRef {
     match t.get(id) { Ok(x) => x, Err(e) => { std::mem::forget(e); XRef::Invalid } }
 }
+fn is_stream(x: &XRef) -> bool { matches!(x, XRef::Stream { .. }) }
+/// well-formedness of a pair (newer, older) of entries for the same number: generation numbers never decrease over time.
+/// A compressed entry carries no generation; as the NEWER entry it puts no constraint on what older sections say.
+fn ordered(newer: &XRef, older: &XRef) -> bool { is_stream(newer) || gen_of(newer) >= gen_of(older) }
 fn merge(t: &mut XRefTable, first_id: u32, entries: Vec<XRef>) -> bool {
     match t.add_entries_from(XRefSection { first_id, entries }) {
         Ok(()) => true,
@@ -47,7 +51,7 @@ fn xref_history_1id_3sections() {
     // sections from newest (0) to oldest (2)
     let e = [any_xref(), any_xref(), any_xref()];
     let present: [bool; 3] = [kani::any(), kani::any(), kani::any()];
-    kani::assume(gen_of(&e[0]) >= gen_of(&e[1]) && gen_of(&e[1]) >= gen_of(&e[2]));
+    kani::assume(ordered(&e[0], &e[1]) && ordered(&e[1], &e[2]) && ordered(&e[0], &e[2]));
     let mut want = XRef::Invalid;
     let mut i = 3;
     while i > 0 { i -= 1; if present[i] { want = e[i]; } }   // newest present section wins
@@ -73,7 +77,7 @@ fn xref_history_2ids() {
     let first: u32 = kani::any();
     kani::assume(first <= 3);
     let newer_mentions_1: bool = kani::any();
-    kani::assume(gen_of(&n0) >= gen_of(&old) && gen_of(&n1) >= gen_of(&old));
+    kani::assume(ordered(&n0, &old) && ordered(&n1, &old));
     if newer_mentions_1 { assert!(merge(&mut t, 0, vec![n0, n1])); } else { assert!(merge(&mut t, 0, vec![n0])); }
     assert!(merge(&mut t, first, vec![old]));
     let g0 = lookup(&t, 0); let g1 = lookup(&t, 1);
@@ -93,7 +97,7 @@ fn xref_merge_step() {
     let cur = if cur_invalid { XRef::Invalid } else { any_xref() };
     t.set(0, cur);
     let old = any_xref();
-    kani::assume(cur_invalid || gen_of(&cur) >= gen_of(&old));
+    kani::assume(cur_invalid || ordered(&cur, &old));
     assert!(merge(&mut t, 0, vec![old]));
     let got = lookup(&t, 0);
     if cur_invalid { assert!(same(&got, &old)); } else { assert!(same(&got, &cur)); }
